@@ -160,7 +160,7 @@ Do(s, th, w, self, manual) ==
         IF s.pb.err # U THEN R(s, Fin(th, s.pb.err, "mr.runlock"), w)
         ELSE R([s EXCEPT !.pb.held = TRUE], [th EXCEPT !.pc = IF th.op = "MsgRecv" THEN "um" ELSE "mr.done", !.aux = s.pb.tag], w)
   [] th.pc = "mr.done" ->
-        R([s EXCEPT !.pb = [set |-> FALSE, held |-> FALSE, err |-> s.pb.err, tag |-> NONE]], Fin(th, "msg:" \o th.aux, "mr.runlock"), w)
+        R([s EXCEPT !.pb = [set |-> FALSE, held |-> FALSE, err |-> s.pb.err, tag |-> NONE]], [Fin(th, "msg:" \o th.aux, "mr.runlock") EXCEPT !.k = 1], w)
   [] th.pc = "mr.runlock" -> R([s EXCEPT !.lk.read = NONE], Goto(th, "mr.cf"), w)
   [] th.pc = "mr.cf" -> R(CheckFin(s), Goto(th, "ret"), w)
   (* -------- CloseSend / Close / SendError -------- *)
